@@ -442,10 +442,12 @@ def validate_string(value, name, choices=None):
     return value
 
 
-def validate_float_or_iterable_numerical(value, name, optional=False, positive=False):
+def validate_float_or_iterable_numerical(
+    value, name, optional=False, positive=False, allow_inf=False
+):
     """
-    Validates whether a given value is a float, integer, or iterable of numerical values,
-    with an option to check for non-negativity.
+    Validates whether a given value is a float, integer, or iterable of numerical values
+    without NaN, with an option to check for non-negativity.
 
     Parameters
     ----------
@@ -457,6 +459,8 @@ def validate_float_or_iterable_numerical(value, name, optional=False, positive=F
         Whether the value is optional. If optional and value is None, returns None. Default is False.
     positive : bool, optional
         Whether to validate that the value is non-negative. Default is False.
+    allow_inf : bool, optional
+        Whether infinite values are acceptable. Default is False.
 
     Returns
     -------
@@ -468,7 +472,8 @@ def validate_float_or_iterable_numerical(value, name, optional=False, positive=F
     TypeError
         If the value is not of type int, float or iterable.
     ValueError
-        If the value could not be converted to a numeric array (if iterable) or if the value is negative (if positive is True).
+        If the value could not be converted to a numeric array (if iterable), if it contains NaN or
+        (unless allow_inf is True) infinite values, or if the value is negative (if positive is True).
     """
 
     if value is None and optional:
@@ -479,6 +484,10 @@ def validate_float_or_iterable_numerical(value, name, optional=False, positive=F
             value = float(value)
         except OverflowError:
             raise ValueError(f"{name} is an integer too large for a float.")
+        if isnan(value):
+            raise ValueError(f"{name} should be a non-NaN number or array")
+        if isinf(value) and not allow_inf:
+            raise ValueError(f"{name} should be a finite number or array")
         if positive and value < 0:
             raise ValueError(f"{name} should be a non-negative number or array")
         return value
@@ -488,6 +497,10 @@ def validate_float_or_iterable_numerical(value, name, optional=False, positive=F
             result = asarray(value, dtype=float)
         except OverflowError:
             raise ValueError(f"{name} contains an integer too large for a float.")
+        if isnan(result).any():
+            raise ValueError(f"All elements in {name} should be non-NaN")
+        if not allow_inf and isinf(result).any():
+            raise ValueError(f"All elements in {name} should be finite")
         if positive and (result < 0).any():
             raise ValueError(f"All elements in {name} should be non-negative")
         return result
